@@ -176,8 +176,8 @@ class Point2D(object):
         Moves the current point to another position
         Doesn't create a copy
         """
-        self._x += vector[0]
-        self._y += vector[1]
+        newx, newy = self._x + vector[0], self._y + vector[1]
+        self._x, self._y = newx, newy
         return self
 
     def rotate(self, angle: float) -> Point2D:
@@ -196,8 +196,8 @@ class Point2D(object):
     def scale(self, xscale: float, yscale: float) -> Point2D:
         float(xscale)
         float(yscale)
-        self._x *= xscale
-        self._y *= yscale
+        newx, newy = self._x * xscale, self._y * yscale
+        self._x, self._y = newx, newy
         return self
 
 
